@@ -836,7 +836,11 @@ class FunctionBuilder:
         if inspect.iscoroutinefunction(func):
             kwargs['is_async'] = True
 
-        return cls(**kwargs)
+        ret = cls(**kwargs)
+        # the constructor turns a missing docstring into '';
+        # a function without one keeps __doc__ = None
+        ret.doc = kwargs['doc']
+        return ret
 
     def get_func(self, execdict=None, add_source=True, with_dict=True):
         """Compile and return a new function based on the current values of
